@@ -45,7 +45,7 @@ SVG = ["svg", "circle", "path", "linearGradient", "clipPath", "foreignObject", "
 TEXT_ALPHA = [" ", " ", "\t", "\n", "\r\n", "\r", " ", " ", "　", "\x0b", "x", "y", "Z", "&nbsp;", "&amp;", "&#8195;", "é"]
 ATTR_TEXT = [" ", "\t", "\n", "a", "b", "-", " ", "c d", "\\", "\\u", "\r", "  \n"]
 PATTERNS = ["^x-", "^my-", "^Foo$", "-el$", "^U$"]
-MODS = ["a", "b", "trim", "lazy", "a-b", "1x"]
+MODS = ["a", "b", "trim", "lazy", "a-b", "1x", "2xl", "300ms", "05", "1st"]
 
 
 class Gen:
@@ -208,7 +208,7 @@ class Gen:
             name += ":" + r.pick(["arg", "value", "title_m", "a_b_c"])
             self.f("dir:ns")
         if base != "v-models" and r.chance(1, 4):
-            name += "".join("_" + r.pick(["a", "b", "trim", "lazy"]) for _ in range(1 + r.below(2)))
+            name += "".join("_" + r.pick(["a", "b", "trim", "lazy", "2xl", "300ms", "500"]) for _ in range(1 + r.below(2)))
             self.f("dir:_mod")
         c = r.below(14)
         if heavy and r.chance(2, 3):
@@ -574,6 +574,8 @@ CTX_PROBES = [
     "<Fragment>x{a}</Fragment>", "<><_Fragment>in</_Fragment></>", "<KeepAlive>{a}</KeepAlive>", "<Comp>{fn()}</Comp>",
     "<Comp>{b}</Comp>", "<div on={{ click: fn }}>t</div>", "<Unknown>{a}</Unknown>", "<input v-model={val} />",
     "<Comp><_Fragment>{a}</_Fragment></Comp>", "<div><_Fragment>t</_Fragment><Comp>{g()}</Comp></div>",
+    # names the prefix / suffix statements bind locally (r1(U, foo), r2(Card, y), r4(slots, Comp))
+    "<Card title=\"x\">{a}</Card>", "<U>{y}</U>", "<Card />", "<div><U id=\"u\" />{foo}</div>", "<Comp v-slots={slots}>{a}</Comp>",
 ]
 
 
@@ -687,6 +689,20 @@ def gen_matrix_cases(start_id=0):
                       "[[val, arg, ['m']], [b]]", "[[val, foo.bar], [b, 'title'], [a[0], arg]]"]:
             add("<%s v-models={%s} id=\"i\" />" % (host, value), k); k += 1
             add("<%s title=\"t\" v-models={%s} onFoo={fn} />" % (host, value), k); k += 1
+    # v-slots beside a sole identifier / call child, and without any child
+    for host in ["Comp", "NS.Item", "Unknown", "div"]:
+        for vs in ["slots", "{ a: () => 1 }", "{ ...slots }", "{ a: fn, b: () => [a] }"]:
+            for ch in ["{foo}", "{fn()}", "", "{}", "{/* c */}", " \n ", "{a}{b}", "t"]:
+                add("<%s v-slots={%s}>%s</%s>" % (host, vs, ch, host), k); k += 1
+        add("<%s v-slots={{ a: () => 1 }} />" % host, k); k += 1
+    # directive modifiers that are not identifiers
+    for name in ["v-custom_2xl", "vCus_300ms_lazy", "v-show_05", "v-custom:arg_1st", "v-model_2dp", "v-custom_500"]:
+        for host in ["input", "Comp"]:
+            add("<%s %s={val} />" % (host, name), k); k += 1
+    for value in ["[val, ['2xl']]", "[val, arg, ['300ms', 'a']]", "[val, ['500', '05']]"]:
+        for host in ["input", "Comp", "div"]:
+            add("<%s v-custom={%s} />" % (host, value), k); k += 1
+            add("<%s v-model={%s} />" % (host, value), k); k += 1
     for host in ["div", "Comp"]:
         for name in ["v-custom", "vCus", "v-custom:arg", "v-custom_m", "v-custom:arg_m_n", "v-validate", "v-show", "vShow:x_y",
                      "vXAxis", "v-BToggle:left_once", "vUIState_m"]:
@@ -1008,10 +1024,14 @@ class TGen(Gen):
         for _ in range(r.below(4)):
             names.append(pool.pop(r.below(len(pool))))
         form = r.below(10)
+        if getattr(self, "focus_overload", False):
+            # the same event declared several times, among several others
+            names = ["change", "update:modelValue", "before-close", "a", "b"][:3 + r.below(3)]
+            form = r.pick([2, 6])
         self.f("emits:%d" % form)
         if not names:
             return r.pick(["{}", "() => void"]), []
-        if len(names) >= 2 and form in (2, 6) and r.chance(1, 2):
+        if len(names) >= 2 and form in (2, 6) and (r.chance(1, 2) or getattr(self, "focus_overload", False)):
             # overloads: the same event declared twice with other payloads (the set is what counts)
             names = names + [names[0]]
             self.f("emits:overload")
@@ -1205,6 +1225,8 @@ def gen_types_cases(seed, n, start_id=0):
         g = TGen(Rng(seed * 7368787 + i))
         if i % 6 == 4:
             g.focus_defaults = True
+        if i % 7 == 6:
+            g.focus_overload = True
         if i % 12 == 3:
             # a key declared by several operands: a discriminated union, an Omit<> beside a redeclaration
             g.focus_dup = True
